@@ -287,9 +287,9 @@ def model_trials_view(out):
     the same rendering as real_trials_view (without min_raw / for_crossings)."""
     from common import parse_sexp
     r = parse_sexp(out)
-    if len(r) != 9:
+    if len(r) != 11:
         return "!" + out
-    raw, rounded, pre, fc, T, ws, common, geo, sizes = r
+    raw, rounded, pre, fc, T, ws, common, geo, sizes, wf, need = r
 
     def sh(x):
         if isinstance(x, list):
@@ -580,7 +580,7 @@ def length_check(program, strategies, n=2, timeout=6):
 
 def run(ctx, res):
     n = 150 if ctx.quick else 1200
-    nlen = 45 if ctx.quick else 400
+    nlen = 36 if ctx.quick else 400
     progs = gen_programs(ctx, n)
     lstep = max(1, len(progs) // nlen)
     res.rule = ("%d programs: gen_design.gen_program (cross/multi/repeat/merge/nest, derived factors within/transition/window, all "
@@ -591,7 +591,7 @@ def run(ctx, res):
                 % (n, nlen))
     lines = []
     expect = []
-    stats = {"blocks": 0, "rejected-blocks": 0, "doc-compared": 0, "doc-unsupported": 0, "length-runs": 0, "length-refused": 0,
+    stats = {"blocks": 0, "rejected-blocks": 0, "doc-compared": 0, "doc-unsupported": 0, "length-runs": 0, "length-refused": 0, "wf_trials": 0, "not-wf_trials": 0,
              "sustain>1": 0, "preamble>0": 0, "min_trials>0": 0, "weights>1": 0}
     shapes = {}
     found = []
@@ -658,7 +658,8 @@ def run(ctx, res):
                 if status in ("refused", "timeout", "empty"):
                     stats["length-" + status] = stats.get("length-" + status, 0) + 1
                 elif status == "wrong-length":
-                    found.append(("length:%s:%s" % (s, main_kind(p)),
+                    # Repeat, Merge and Nest all repeat crossings through _create's REPEAT machinery: one signature
+                    found.append(("length:%s:%s" % (s, "Repeat" if main_kind(p) in ("Repeat", "Merge", "Nest") else main_kind(p)),
                                   "%s returns a sequence with %d entries for factor %s of a %s block whose trials_per_sample() is %d"
                                   % (s, detail["entries"], detail["factor"], main_kind(p), detail["trials_per_sample"]),
                                   dict(detail, strategy=s), p, True))
@@ -700,6 +701,8 @@ def run(ctx, res):
             mv = model_trials_view(mod)
             ok = (real == mv)
             res.layer("L1-trials", ok)
+            # hypothesis of the C16 theorems on the real flat record (wf_trials_b, proved sound in Coq)
+            stats["wf_trials" if mod.split()[-2] == "true" else "not-wf_trials"] += 1
             if not ok:
                 corr_bad.append(("trials", p, real, mv))
         else:
